@@ -20,6 +20,7 @@ def run(chk, tier, only_rule=None):
     facts = F.load(['csv'], tier)
     chk.units = ['csv', 'toon']
     r18_6(chk, facts)
+    r18_7(chk, facts)
     if only_rule in (None, 'R18.3', 'R18.4'):
         toon_rules(chk, tier)
     if only_rule in ('R18.3', 'R18.4'): return
@@ -102,6 +103,34 @@ def run(chk, tier, only_rule=None):
     if ok: chk.ok('R18.2', site, {'verdict': 'escaped_value: curr_char == quote_char_ -> push'})
     else: chk.fail('R18.2', site, pfn['file'], pfn['l'], 'parser state escaped_value does not restore the quote character', None, pfn['q'])
 
+
+def r18_7(chk, facts):
+    """The encoder writes line_delimiter (any of \\n, \\r, \\r\\n); the parser must end a record on CR wherever it does on LF."""
+    chk.rule('R18.7', 'CSV line terminators: every parser state whose character switch has a case for LF also has one for CR and vice versa '
+                      '(comment, between_values, unquoted_string, expect_record, end_record), so a record is recognised under every line_delimiter '
+                      'the encoder can write, whether its last field is quoted or not', floor=5)
+    pf = [f for f in U.functions(facts, cls='basic_csv_parser', name='parse_some') if f.get('body') is not None]
+    chk.require(pf, 'basic_csv_parser::parse_some not found')
+    fn = pf[0]; chk.analysed(fn)
+    en = U.enum_value_names(U.enum_by_suffix(facts, '::csv_parse_state'))
+    n = 0
+    for sw in A.walk_no_lambda(fn['body']):
+        if sw.get('k') != 'SwitchStmt' or A.ref_name(sw.get('cond')) != 'state_': continue
+        for labels, st in P.PEval.switch_items(sw['body']):
+            names = [en.get(lo, '?') for lo, hi in labels if lo != 'default']
+            inner = [y for y in A.walk_no_lambda(st) if y.get('k') == 'SwitchStmt' and 'curr_char' in A.text(y.get('cond'))] if st else []
+            if not inner or not names: continue
+            chars = set()
+            for lb, s2 in P.PEval.switch_items(inner[0]['body']):
+                for lo, hi in lb:
+                    if lo != 'default': chars.update(range(lo, (hi if hi is not None else lo) + 1))
+            if 10 not in chars and 13 not in chars: continue
+            n += 1
+            site = U.site(fn, 'state %s terminators' % '/'.join(names))
+            if 10 in chars and 13 in chars: chk.ok('R18.7', site, {'state': names})
+            else: chk.fail('R18.7', site, fn['file'], inner[0].get('l'), 'state %s handles %s but not %s: with line_delimiter "\\r" or "\\r\\n" a record that ends in this state is not terminated' % (
+                '/'.join(names), 'LF' if 10 in chars else 'CR', 'CR' if 10 in chars else 'LF'), None, fn['q'])
+    chk.require(n >= 5, 'R18.7: only %d states with a line terminator case found' % n)
 
 def r18_6(chk, facts):
     """Type inference applies to unquoted fields only."""
